@@ -264,6 +264,40 @@ fn common_spaces(prop: &'static str, flags: [u32; 6], tier: Tier, other_scripts:
         let sub = vec![0xac];
         check_preimage(prop, &Q { tx: &tx, idx: c[4] as usize, subscript: &sub, value: VALS[c[2] as usize], flag: flags[c[3] as usize] }, acc, case);
     }));
+    // single-bit and all-ones-below patterns in every integer field (byte-order and masking slips that boundary values hide)
+    v.push(Space::new("field-bit-patterns", 4 * 66 * 2 * 6, move |case, acc| {
+        let c = coords(case.idx, &[4, 66, 2, 6]);
+        let k = c[1] as u32;
+        let pow = |bits: u32| -> u64 { if k >= bits { u64::MAX >> (64 - bits) } else { 1u64 << k } };
+        let v64 = if c[2] == 0 { pow(64) } else { pow(64).wrapping_sub(1) };
+        let v32 = (if c[2] == 0 { pow(32) } else { pow(32).wrapping_sub(1) }) as u32;
+        let mut tx = base_tx(2, 2, &[0x01020304, 0xfffffffe], other_scripts);
+        let mut value = 0x0102030405060708u64;
+        match c[0] {
+            0 => tx.version = v32,
+            1 => tx.locktime = v32,
+            2 => {
+                tx.inputs[0].sequence = v32;
+                tx.inputs[1].vout = v32.rotate_left(8);
+            }
+            _ => {
+                value = v64;
+                tx.outputs[1].value = v64.rotate_left(16);
+            }
+        }
+        let sub = vec![0xac];
+        check_preimage(prop, &Q { tx: &tx, idx: 1, subscript: &sub, value, flag: flags[c[3] as usize] }, acc, case);
+    }));
+    // every subscript length 0..=N (interior lengths)
+    {
+        let maxlen: u64 = if tier.is_thorough() { 4200 } else { 1100 };
+        v.push(Space::new("subscript-length-sweep", (maxlen + 1) * 2, move |case, acc| {
+            let c = coords(case.idx, &[maxlen + 1, 2]);
+            let tx = base_tx(2, 2, &[5, 0xfffffffe], other_scripts);
+            let sub = subscript_of(c[0] as usize, 1);
+            check_preimage(prop, &Q { tx: &tx, idx: c[1] as usize, subscript: &sub, value: 7, flag: flags[(c[0] % 6) as usize] }, acc, case);
+        }));
+    }
     v.push(Space::new("subscripts", 9 * 2 * 6 * 2, move |case, acc| {
         let c = coords(case.idx, &[9, 2, 6, 2]);
         let tx = base_tx(2, 2, &[5, 0xfffffffe], other_scripts);
